@@ -156,6 +156,11 @@ func init() {
 	} {
 		in[n] = nop
 	}
+	in["log.New"] = func(ex *Exec, fn *ssa.Function, args []Value) Value {
+		c := new(Value)
+		*c = ex.zero(deref(fn.Signature.Results().At(0).Type()))
+		return Ptr{c}
+	}
 	in["(*log.Logger).Output"] = func(ex *Exec, fn *ssa.Function, args []Value) Value { return Iface{} }
 	for _, n := range []string{"log.Fatalf", "log.Fatal", "log.Fatalln", "(*log.Logger).Fatalf", "(*log.Logger).Fatal", "os.Exit"} {
 		name := n
